@@ -39,7 +39,7 @@ class Address:
     def derive_alias(self, suffix: str):
         a1 = Address()
         a1.object_list = [var_name + suffix for var_name in self.object_list]
-        a1.length_array = self.length_array
+        a1.length_array = self.length_array.copy()
         a1.update_v_cache()
         return a1
 
